@@ -76,6 +76,19 @@ def wf_handler(handler_fails: bool) -> Any:
                                      make_step("on_err", [StepFailedEvent], [StopEvent], on_err, decorator=catch_error)])
 
 
+def wf_unserializable() -> Any:
+    """engine-side failure: a step hands on an event that cannot be written to the tick log (a payload JSON cannot hold)"""
+    async def s1(self, ctx, ev, inv):  # noqa: ANN001
+        await gate("s1")
+        return A(uid=1, payload={1, 2, 3}, blob=b"\xff\xfe")
+
+    async def s2(self, ctx, ev, inv):  # noqa: ANN001
+        await gate("s2")
+        return StopEvent(result="ok")
+
+    return make_workflow("Unser", [make_step("s1", [StartEvent], [A], s1), make_step("s2", [A], [StopEvent], s2)])
+
+
 PROGRAMS: dict[str, dict[str, Any]] = {
     "ok": {"make": wf_ok, "timeout": None, "cancel": False},
     "race": {"make": wf_race, "timeout": None, "cancel": False},
@@ -86,6 +99,7 @@ PROGRAMS: dict[str, dict[str, Any]] = {
     "timeout": {"make": wf_ok, "timeout": 5.0, "cancel": False},
     "cancel": {"make": wf_ok, "timeout": None, "cancel": True},
     "cancel_vs_timeout": {"make": wf_ok, "timeout": 5.0, "cancel": True},
+    "engine_failure_unserializable_event": {"make": wf_unserializable, "timeout": None, "cancel": False},
 }
 TERMINAL = ("completed", "failed", "cancelled")
 
